@@ -47,6 +47,7 @@ type Profile struct {
 	VotePeriods []uint64
 	Probono     bool
 	OracleFee   string
+	Isolation   bool // tenant 1 and the other tenants use disjoint accounts and NFTs; a second run without the others (C13)
 	Roundtrip   bool // export the final state, import it into a fresh application (C17)
 	Replica     bool // execute every history twice and compare the app hashes
 	Imported    bool // tenants and records (multi-recipient, weighted) imported through genesis
@@ -198,6 +199,18 @@ func (g *genState) importedGenesis() {
 
 func (g *genState) user() int { return g.users[g.r.Intn(len(g.users))] }
 
+// userFor: under the isolation profile tenant 1 is operated by the first two user accounts and every other
+// tenant by the rest, so that nobody who acts for tenant 1 is debited or credited by the others
+func (g *genState) userFor(tid uint64) int {
+	if !g.p.Isolation {
+		return g.user()
+	}
+	if tid == 1 {
+		return g.users[g.r.Intn(2)]
+	}
+	return g.users[2+g.r.Intn(len(g.users)-2)]
+}
+
 func (g *genState) amount() string {
 	r := g.r
 	if g.p.Adversarial && r.Chance(25) {
@@ -238,7 +251,7 @@ func (g *genState) senderFor(t *genTenant) int {
 	if len(t.admins) > 0 && !r.Chance(12) {
 		return t.admins[r.Intn(len(t.admins))]
 	}
-	return g.user() // stranger, removed admin or other tenant's admin
+	return g.userFor(t.id) // stranger, removed admin or other tenant's admin
 }
 
 func (g *genState) settlementMsg() *Msg {
@@ -254,7 +267,7 @@ func (g *genState) settlementMsg() *Msg {
 		if g.p.Mint && r.Chance(35) {
 			kind = "create_tenant_mc"
 		}
-		m := &Msg{Kind: kind, Sender: g.user(), Denom: denom, Period: g.period()}
+		m := &Msg{Kind: kind, Sender: g.userFor(uint64(len(g.tenants) + 1)), Denom: denom, Period: g.period()}
 		if g.p.Adversarial && r.Chance(5) {
 			m.Period = 0
 		}
@@ -291,6 +304,9 @@ func (g *genState) settlementMsg() *Msg {
 			}
 			m.Contract = extContracts[r.Intn(len(extContracts))]
 			m.Tok = []string{"0x1", "0x2", "0x01", "0xff", "0x3"}[r.Intn(5)]
+			if g.p.Isolation {
+				m.Tok = fmt.Sprintf("0x%x", 256*t.id+uint64(r.Intn(4)))
+			}
 			if g.p.Adversarial && r.Chance(15) {
 				m.Tok = []string{"0x", "1", "0xzz", "0x+f", "0x-1", "0x10000000000000000000000000000000000000000", "", "0X1"}[r.Intn(8)]
 			}
@@ -315,7 +331,7 @@ func (g *genState) settlementMsg() *Msg {
 		}
 		return &Msg{Kind: "cancel", Sender: g.senderFor(t), Tid: t.id, Req: req}
 	case k < 78:
-		m := &Msg{Kind: "deposit", Sender: g.user(), Tid: t.id, Denom: g.denomFor(t), Amount: fmt.Sprint(1 + r.Intn(1500))}
+		m := &Msg{Kind: "deposit", Sender: g.userFor(t.id), Tid: t.id, Denom: g.denomFor(t), Amount: fmt.Sprint(1 + r.Intn(1500))}
 		if r.Chance(5) {
 			m.Amount = "2000000" // more than the account holds
 		}
@@ -329,9 +345,9 @@ func (g *genState) settlementMsg() *Msg {
 	case k < 85:
 		return &Msg{Kind: "update_period", Sender: g.senderFor(t), Tid: t.id, Period: g.period()}
 	case k < 93:
-		return &Msg{Kind: "add_admin", Sender: g.senderFor(t), Tid: t.id, Admin: g.user()}
+		return &Msg{Kind: "add_admin", Sender: g.senderFor(t), Tid: t.id, Admin: g.userFor(t.id)}
 	default:
-		adm := g.user()
+		adm := g.userFor(t.id)
 		if len(t.admins) > 0 && r.Chance(70) {
 			adm = t.admins[r.Intn(len(t.admins))]
 		}
@@ -492,7 +508,7 @@ func (g *genState) block() {
 	}
 	if r.Chance(15) && len(g.tenants) > 0 {
 		t := g.pickTenant()
-		envs = append(envs, Env{Kind: "bank_send", From: g.user(), To: -1 - int(t.id), Denom: t.denom, Amount: fmt.Sprint(1 + r.Intn(300))})
+		envs = append(envs, Env{Kind: "bank_send", From: g.userFor(t.id), To: -1 - int(t.id), Denom: t.denom, Amount: fmt.Sprint(1 + r.Intn(300))})
 	}
 	if g.p.Internal {
 		if g.nftNext < 4 && r.Chance(40) {
